@@ -390,6 +390,58 @@ def rel_edges(prog: Program) -> RuleResult:
     return r
 
 
+_REMOVERS = {
+    "list": ("remove", "pop", "clear", "__delitem__", "__imul__"),
+    "set": ("remove", "discard", "pop", "clear", "difference_update", "intersection_update", "symmetric_difference_update", "__isub__", "__iand__", "__ixor__"),
+}
+
+
+def id_state(prog: Program) -> RuleResult:
+    """An id() is only a name for an object while the object lives: a container that remembers the ids of its elements has to forget an id on
+    every way an element can leave it - the removal methods it inherits from list / set included - or the id of an element that was removed
+    and collected answers for the next object allocated at that address (an inferred relation to the new object is "already there" and
+    the field is never updated)."""
+    from ..astutil import calls_in, call_name
+
+    r = RuleResult("ID-STATE", "element ids a managed container remembers are forgotten on every way an element can leave", floor=1)
+    mcq = "monitored_container.MonitoredContainer"
+    mc = prog.cls(mcq)
+    n = 0
+    for c in [mc] + list(prog.subclasses(mc.qual, strict=True)):
+        kind = next((q.split(".")[-1] for q in c.mro if q in ("ext:builtins.list", "ext:builtins.set")), None)
+        id_fields = set()
+        for q in c.mro:
+            k = prog.classes.get(q)
+            if k is None:
+                continue
+            for m in k.methods.values():
+                for x in walk_local(m.node):
+                    holds_id = lambda e: any(isinstance(y, ast.Call) and isinstance(y.func, ast.Name) and y.func.id == "id" for y in ast.walk(e))
+                    if isinstance(x, ast.Call) and isinstance(x.func, ast.Attribute) and x.func.attr in ("add", "append", "setdefault", "update") and is_self_attr(x.func.value) and any(holds_id(a) for a in x.args):
+                        id_fields.add(x.func.value.attr)
+                    if isinstance(x, ast.Assign) and any(isinstance(t, ast.Subscript) and is_self_attr(t.value) and holds_id(t.slice) for t in x.targets):
+                        id_fields |= {t.value.attr for t in x.targets if isinstance(t, ast.Subscript) and is_self_attr(t.value)}
+        if not id_fields or kind is None:
+            continue
+        n += 1
+        for fld in sorted(id_fields):
+            missing = []
+            for rm in _REMOVERS[kind]:
+                m = prog.lookup(c.qual, rm)
+                if m is None or not any(isinstance(y, ast.Attribute) and is_self_attr(y) and y.attr == fld for y in ast.walk(m.node)):
+                    # reached through a self call?
+                    from ..callgraph import self_closure
+                    touched = m is not None and any(any(isinstance(y, ast.Attribute) and is_self_attr(y) and y.attr == fld for y in ast.walk(g.node)) for g in self_closure(prog, c.qual, m, False)[0])
+                    if not touched:
+                        missing.append(rm)
+            r.check(not missing, f"{c.name}.{fld}#forgotten-on-removal", c.loc, f"{kind} removal methods: {', '.join(_REMOVERS[kind])}", "every removal method maintains the remembered ids",
+                    f"{c.name} remembers id(element) in {fld}, but {kind}.{'/'.join(missing)} take an element out without touching it: after the element is collected its id answers for the "
+                    "next object at that address - an inferred relation to that object finds the value 'already in the field' and the field is never updated")
+    if n == 0:
+        r.ok("monitored_container#no-remembered-ids", mc.loc, "", "no managed container remembers ids of its elements")
+    return r
+
+
 def _tests_both_alive(prog: Program, sg, cond: ast.expr, depth: int = 0) -> bool:
     def alive(e: ast.expr, pol: bool) -> Set[str]:
         """endpoints known to be alive when `e` evaluates to `pol`"""
@@ -435,4 +487,4 @@ def _opt_truth(prog):
 
 
 def run(prog: Program, tier: str) -> List[RuleResult]:
-    return [sg_coherence(prog), idkey(prog), rel_gate(prog), sg_purge_directions(prog), rel_live(prog), _sg_sweep(prog), _opt_truth(prog), rel_edges(prog)]
+    return [sg_coherence(prog), idkey(prog), rel_gate(prog), sg_purge_directions(prog), rel_live(prog), _sg_sweep(prog), _opt_truth(prog), rel_edges(prog), id_state(prog)]
